@@ -271,7 +271,7 @@ Qed.
 (* the echo of every printable expression is read back, as the tree its concrete syntax denotes *)
 Definition reread (e : texpr) : expr := desugar (echo_tree Plain e).
 
-Theorem echo_roundtrip : forall e, printable_t e = true -> parse (pp e) = Ok [reread e] [].
+Theorem echo_roundtrip : forall e, printable_t e = true -> parse (pp e) = Ok [StExpr (reread e)] [].
 Proof.
   intros e Hp. unfold pp, reread. apply roundtrip. eapply wf_echo; eauto.
 Qed.
@@ -371,7 +371,7 @@ Proof.
 Qed.
 
 Theorem echo_roundtrip_exact : forall e, printable_t e = true -> exact_t e = true ->
-  parse (pp e) = Ok [erase e] [].
+  parse (pp e) = Ok [StExpr (erase e)] [].
 Proof.
   intros e Hp Hx. rewrite (echo_roundtrip e Hp). unfold reread.
   rewrite (desugar_echo (S (tsize e)) e ltac:(lia) Hx Plain). reflexivity.
